@@ -105,6 +105,10 @@ pub fn layout_check(image: &[u8], format: u32, snapshot: &BTreeMap<Vec<u8>, Gen>
 }
 
 pub struct CrashPlan {
+    /// enumerate crash images (false = only the per-flush checks on each history)
+    pub crash: bool,
+    /// tag for the independent-reader check of flushed images ("C10" or "C05")
+    pub layout_tag: &'static str,
     pub nest: usize,
     pub reopen_cycles: usize,
     pub sector_tear: bool,
@@ -135,7 +139,14 @@ pub fn crash_check(prop: &str, suites: Vec<Suite>, accept: &[&str], plan: CrashP
             let now = po.final_model.as_ref().map(|m| m.now).unwrap_or(crate::sut::T0);
             let opts = CrashOpts { sector_tear: plan.sector_tear, reopen_cycles: plan.reopen_cycles, nest: plan.nest, now };
             let ctx = hash64(&[s.name.as_bytes(), format!("{:?}", ob.hists).as_bytes(), &now.to_le_bytes()]);
-            let (st, findings) = crash::check_history(&s.cfg, base, &po.log, &ob, from, &opts, &seen, ctx);
+            let (st, mut findings) = if plan.crash {
+                crash::check_history(&s.cfg, base, &po.log, &ob, from, &opts, &seen, ctx)
+            } else {
+                (CrashStats::default(), Vec::new())
+            };
+            for m in &po.flush_checks {
+                findings.push(crash::Finding { msg: m.clone(), desc: "live store at flush acknowledgement".into() });
+            }
             let mut layout_findings = Vec::new();
             let mut flushed = 0;
             if plan.layout {
@@ -143,7 +154,10 @@ pub fn crash_check(prop: &str, suites: Vec<Suite>, accept: &[&str], plan: CrashP
                     let end = po.log.iter().position(|e| matches!(e, IoEv::Mark(2, i) if *i as usize == ops.len() - 1)).unwrap_or(po.log.len());
                     let img = image_at(base, &po.log, end);
                     flushed = 1;
-                    layout_findings = layout_check(&img, s.cfg.format, po.snapshots.last().unwrap());
+                    layout_findings = layout_check(&img, s.cfg.format, po.snapshots.last().unwrap())
+                        .into_iter()
+                        .map(|m| m.replacen("C10", plan.layout_tag, 1))
+                        .collect();
                 }
             }
             let mut a = agg.lock().unwrap();
